@@ -10,7 +10,9 @@ import (
 	"fmt"
 	"io"
 	"os"
+	"runtime"
 	"strings"
+	"sync"
 	"syscall"
 	"time"
 
@@ -251,9 +253,100 @@ func (f *faultyReader) Read(p []byte) (int, error) {
 	return n, nil
 }
 
+// c13MemfdConcurrent: several callers copy their executables at the same time (a judge server seals
+// many submissions in parallel); every sealed file must hold its own caller's bytes.
+func c13MemfdConcurrent(c *vcore.Ctx) *vcore.Violation {
+	const prop = "C13"
+	src := c.Src
+	n := 2 + src.Int(4, "ncallers")
+	size := []int{70000, 1 << 20, 3<<20 + 17}[src.Int(3, "csize")]
+	c.Logf("memfd: %d concurrent callers, %d bytes each, plain readers served in pieces", n, size)
+	c.Event(fmt.Sprintf("memfd:concurrent:%d:%d", n, size))
+	c.Fault("concurrent_memfd_copies")
+	c.MarkNonTrivial()
+	type res struct {
+		f   *os.File
+		err error
+	}
+	datas := make([][]byte, n)
+	out := make([]res, n)
+	var wg sync.WaitGroup
+	start := make(chan struct{})
+	for i := 0; i < n; i++ {
+		d := make([]byte, size)
+		for k := range d {
+			d[k] = byte(0x10*(i+1)) + byte(k%13)
+		}
+		datas[i] = d
+		fr := &pieceReader{data: d, step: []int{4096, 8192, 100, 32768}[i%4]}
+		wg.Add(1)
+		go func(i int) {
+			defer wg.Done()
+			<-start
+			// (not an *os.File, not an io.WriterTo: the copier has to move the bytes itself)
+			f, err := memfd.DupToMemfd(fmt.Sprintf("verif%d", i), io.LimitReader(fr, 64<<20))
+			out[i] = res{f, err}
+		}(i)
+	}
+	close(start)
+	wg.Wait()
+	defer func() {
+		for _, r := range out {
+			if r.f != nil {
+				r.f.Close()
+			}
+		}
+	}()
+	for i, r := range out {
+		if r.err != nil {
+			return vcore.Violate(prop, "memfd_failed", "memfd/concurrent", "caller %d of %d: DupToMemfd failed: %v", i, n, r.err)
+		}
+		got := make([]byte, size+10)
+		m, _ := r.f.ReadAt(got, 0)
+		if m != size || !bytes.Equal(got[:m], datas[i]) {
+			first := -1
+			for k := 0; k < m && k < size; k++ {
+				if got[k] != datas[i][k] {
+					first = k
+					break
+				}
+			}
+			return vcore.Violate(prop, "content_differs", "memfd/concurrent", "caller %d of %d concurrent callers: the sealed file has %d bytes (supplied %d), first difference at byte %d: it holds another caller's data", i, n, m, size, first)
+		}
+	}
+	return nil
+}
+
+// pieceReader is a plain io.Reader serving its data in pieces (no other interface, no shared state).
+type pieceReader struct {
+	data []byte
+	off  int
+	step int
+}
+
+func (r *pieceReader) Read(p []byte) (int, error) {
+	if r.off >= len(r.data) {
+		return 0, io.EOF
+	}
+	n := r.step
+	if n > len(p) {
+		n = len(p)
+	}
+	if n > len(r.data)-r.off {
+		n = len(r.data) - r.off
+	}
+	copy(p, r.data[r.off:r.off+n])
+	r.off += n
+	runtime.Gosched() // the callers take turns
+	return n, nil
+}
+
 func c13Memfd(c *vcore.Ctx) *vcore.Violation {
 	const prop = "C13"
 	src := c.Src
+	if src.Bool(1, 5, "memfd_concurrent") {
+		return c13MemfdConcurrent(c)
+	}
 	shape := src.Pick("memfd_shape", "copy", "copy", "execute")
 	probeBytes, err := os.ReadFile(probePath)
 	if err != nil {
